@@ -3,6 +3,7 @@ modules under the repository's interpreter *is* the proof (CPython in the truste
 from __future__ import annotations
 
 import importlib
+import os
 from math import gcd
 
 from families import evaluator, aff_add, aff_mul, aff_on, aff_eq
@@ -613,3 +614,57 @@ def _():
     ok = ok and len(c.ETAS) == 4 and all(any(e * e * w == Z3 for e in c.ETAS) for w in prim)
     return ok, ("T1: every fourth root of unity w has a positive eighth root rho with rho^2 w = 1; T2: rho^8 = 1; "
                 "T3: every w with w^4 = -1 has an eta with eta^2 w = Z^3")
+
+
+# ---- primality certificates (Pocklington, recursive) ---------------------------------------------------------------
+def _verify_pocklington(node, depth=0):
+    """node = {n, small} | {n, factors {q: e}, witness {q: a}, sub [nodes for the q]}.
+    Pocklington: if F | n-1, F > sqrt(n), F = prod q^e with every q prime, and for every q there is a with
+    a^(n-1) = 1 (mod n) and gcd(a^((n-1)/q) - 1, n) = 1, then n is prime."""
+    n = int(node["n"])
+    if node.get("small"):
+        return n < 2 ** 64 and _strong_prp(n)           # deterministic below 3.3e24 with these bases
+    if depth > 40:
+        return False
+    F = 1
+    subs = {int(s_["n"]): s_ for s_ in node["sub"]}
+    for qs, e in node["factors"].items():
+        q = int(qs)
+        if q not in subs or not _verify_pocklington(subs[q], depth + 1):
+            return False
+        if (n - 1) % (q ** e):
+            return False
+        F *= q ** e
+        a = int(node["witness"][qs])
+        if pow(a, n - 1, n) != 1 or gcd(pow(a, (n - 1) // q, n) - 1, n) != 1:
+            return False
+    return F * F > n and (n - 1) % F == 0
+
+
+@evaluator("primes.certificates")
+def _():
+    import json as _json
+    path = os.path.join(os.path.dirname(os.path.dirname(os.path.abspath(__file__))), "certs", "primes.json")
+    certs = _json.load(open(path))
+    want = dict(secp_P=SECP_P, secp_N=SECP_N, bn_p=P_BN, bn_r=R_BN, bls_r=R_BLS)
+    ok = True
+    done = []
+    for k, n in want.items():
+        c = certs.get(k)
+        good = c is not None and int(c["n"]) == n and _verify_pocklington(c)
+        ok = ok and good
+        if good:
+            done.append(k)
+    extra = []
+    if "bls_p" in certs and int(certs["bls_p"]["n"]) == P_BLS and _verify_pocklington(certs["bls_p"]):
+        extra.append("bls_p")
+    # the constants of the modules are these numbers
+    s = M("py_ecc.secp256k1.secp256k1")
+    ok = ok and s.P == SECP_P and s.N == SECP_N
+    for mn, p_, r_ in (("py_ecc.bn128.bn128_curve", P_BN, R_BN), ("py_ecc.optimized_bn128.optimized_curve", P_BN, R_BN),
+                       ("py_ecc.bls12_381.bls12_381_curve", P_BLS, R_BLS), ("py_ecc.optimized_bls12_381.optimized_curve", P_BLS, R_BLS)):
+        m_ = M(mn)
+        ok = ok and m_.field_modulus == p_ and m_.curve_order == r_
+    ok = ok and _strong_prp(P_BLS)
+    return ok, ("Pocklington certificates verified for " + ", ".join(done + extra) +
+                ("; the BLS12-381 field prime is a strong probable prime to 40 bases (no certificate)" if not extra else ""))
